@@ -219,11 +219,15 @@ def delMany (p : P) (idx : List Nat) : P :=
 
 def shiftConj (k : Nat) (c : Conj) : Conj := c.map (fun l => if l.1 == -1 then l else (l.1 + k, l.2))
 
-/-- one row per pair `(i, j)`; disjuncts are the pairwise concatenations; the right operand's units
-are shifted behind the left operand's -/
+def allPad (c : Conj) : Bool := c.all (fun l => l.1 == -1)
+
+/-- one row per pair `(i, j)`; disjuncts are the pairwise concatenations (a pair in which either side
+is pure padding stays pure padding); the right operand's units are shifted behind the left operand's -/
 def join (p q : P) : P :=
   { data := p.data.flatMap (fun r => q.data.map (fun s =>
-      r.flatMap (fun c => s.map (fun c' => c ++ shiftConj p.nUnits c')))),
+      r.flatMap (fun c => s.map (fun c' =>
+        if allPad c || allPad c' then List.replicate (p.nConj + q.nConj) padLit
+        else c ++ shiftConj p.nUnits c')))),
     nDisj := p.nDisj * q.nDisj, nConj := p.nConj + q.nConj, nUnits := p.nUnits + q.nUnits, nCands := p.nCands }
 
 end Ds.Prov
